@@ -56,6 +56,9 @@ def make_tx(rng, rate=None, nloc=None):
         tx.dc = (32000 - tx.amp) * (1 if tx.dc > 0 else -1)
     tx.baud = (rng.below(2001) - 1000) / 100000.0          # +/- 1 %
     tx.snr = rng.choice([None, 30, 25, 22, 20])
+    # one transmission in five with stricter (documented) error budgets than the defaults: preamble 0..2 bit errors, frame prefix
+    # 0..2 bit errors, 3..5 invalid bytes -- a clean transmission must not depend on the slack
+    tx.cfg_extra = "pre=%d pfx=%d inv=%d" % (rng.below(3), rng.below(3), rng.range(3, 5)) if rng.chance(1, 5) else ""
     return tx
 
 
@@ -73,10 +76,10 @@ def premise(tx, ev):
 
 
 def run_cases(ctx, cases):
-    res = rxlib.run_rx([t.line() for t in cases])
+    res = rxlib.run_rx([t.line(extra=getattr(t, "cfg_extra", "")) for t in cases])
     stats = {"decoded_exactly": 0, "premise_ok": 0, "model_equal": 0, "junk_lengths": {}, "by_rate": {}}
     for tx, r in zip(cases, res):
-        line = tx.line()
+        line = tx.line(extra=getattr(tx, "cfg_extra", ""))
         if r.get("error"):
             ctx.violation("harness-failure", r["error"][:200], {"input": line}); continue
         if r["model"] == r["impl"]:
